@@ -190,8 +190,17 @@ def extract(repo):
     if len(re.findall(r"what->severity\s*>=\s*SEVERITY_EXIT", ws)) != 2 or \
        len(re.findall(r"if\s*\(\s*what->severity\s*>=\s*SEVERITY_DUMP\s*\)\s*\{\s*abort\s*\(\s*\)\s*;\s*\}\s*else\s*\{\s*exit\s*\(\s*EXPRESS_fail\s*\(", ws)) != 2:
         raise ValueError("report_with_symbol: EXIT/DUMP handling not in the expected form")
-    if not re.search(r"ERROR_string\s*\+\s*ERROR_MAX_STRLEN\s*>\s*ERROR_string_base\s*\+\s*ERROR_MAX_SPACE\s*\|\|\s*ERROR_with_lines\s*==\s*ERROR_MAX_ERRORS", ws):
-        raise ValueError("report_with_symbol: buffer-full flush condition not found")
+    # the buffered branch when the message area / the heap is full: either the condition is or-ed to the EXIT test (the run ends
+    # with the failure status whatever was reported) or it stands on its own and only flushes and restarts the buffer
+    wsn = re.sub(r"\s+", "", re.sub(r"/\*.*?\*/", "", ws, flags=re.S))
+    full = r"ERROR_string\+ERROR_MAX_STRLEN>ERROR_string_base\+ERROR_MAX_SPACE\|\|ERROR_with_lines==ERROR_MAX_ERRORS"
+    tail = r"ERROR_flush_message_buffer\(\);if\(what->severity>=SEVERITY_DUMP\)\{abort\(\);\}else\{exit\(EXPRESS_fail\(\(Express\)0\)\);\}\}"
+    if re.search(r"if\(what->severity>=SEVERITY_EXIT\|\|" + full + r"\)\{" + tail, wsn):
+        buffer_full_ends_run = True
+    elif re.search(r"if\(what->severity>=SEVERITY_EXIT\)\{" + tail + r"if\(" + full + r"\)\{ERROR_flush_message_buffer\(\);ERROR_start_message_buffer\(\);\}", wsn):
+        buffer_full_ends_run = False
+    else:
+        raise ValueError("report_with_symbol: the buffered branch's EXIT / buffer-full handling is not in a modelled form")
     # the unbuffered branch terminates each message with a newline, the buffered one with ERROR_nexterror()
     unbuf_nl = len(re.findall(r'fprintf\s*\(\s*error_file\s*,\s*"\\n"\s*\)', ws))
     buf_next = len(re.findall(r"ERROR_nexterror\s*\(\s*\)", ws))
@@ -199,9 +208,14 @@ def extract(repo):
         raise ValueError("report_with_symbol: message terminators not in the expected form")
     nexterr = _body(code_c, r"static\s+void\s+ERROR_nexterror\s*\(\s*\)\s*\{")
     flush = _body(code_c, r"\bvoid\s+ERROR_flush_message_buffer\s*\(\s*void\s*\)\s*\{")
-    if not re.search(r'fprintf\s*\(\s*stderr\s*,\s*"%s"\s*,\s*heap\s*\[\s*1\s*\]\s*\.msg\s*\)', flush):
-        raise ValueError("ERROR_flush_message_buffer: `fprintf( stderr, \"%s\", heap[1].msg )` not found")
-    buffered_newline = bool(re.search(r"\\n", nexterr)) or bool(re.search(r'"%s\\n"', flush))
+    mfl = re.search(r'fprintf\s*\(\s*stderr\s*,\s*"%s(\\n)?"\s*,\s*heap\s*\[\s*1\s*\]\s*\.msg\s*\)', flush)
+    if not mfl:
+        raise ValueError("ERROR_flush_message_buffer: `fprintf( stderr, \"%s\" | \"%s\\n\", heap[1].msg )` not found")
+    buffered_newline = bool(re.search(r"\\n", nexterr)) or mfl.group(1) is not None
+    # EXPRESS_succeed: are the buffered warnings of a run without errors printed (flush before the hook / the banner)
+    exp_c = open(os.path.join(repo, "src/express/express.c")).read()
+    succ = _body(exp_c, r"\bint\s+EXPRESS_succeed\s*\(\s*Express\s+model\s*\)\s*\{")
+    succeed_flushes = bool(re.match(r"\s*(?:/\*.*?\*/\s*)*ERRORflush_messages\s*\(\s*\)\s*;", succ, flags=re.S))
 
     # ---- ERRORreport (no position) ------------------------------------------------------------------------------
     rp = _body(code_c, r"\bERRORreport\s*\(\s*enum\s+ErrorCode\s+errnum\s*,\s*\.\.\.\s*\)\s*\{")
@@ -331,6 +345,10 @@ def extract(repo):
           f"def plainWarningPrintsSeverity : Bool := {'true' if report_warn_prints_severity else 'false'}",
           "/-- buffered (`-B`) messages are terminated by a newline when flushed -/",
           f"def bufferedNewline : Bool := {'true' if buffered_newline else 'false'}",
+          "/-- with `-B`, a full message area / heap ends the run with the failure status (else: flush, restart the buffer, go on) -/",
+          f"def bufferFullEndsRun : Bool := {'true' if buffer_full_ends_run else 'false'}",
+          "/-- `EXPRESS_succeed` flushes the buffered (`-B`) warnings of a run without errors before the banner -/",
+          f"def succeedFlushes : Bool := {'true' if succeed_flushes else 'false'}",
           "/-- the option letter for which `ERRORset_warning` is called with `warn_only = true` -/",
           f"def overrideLetter : Char := '{override_letter}'",
           "/-- argument of `ERRORset_all_warnings` when neither -w nor -i was given -/",
